@@ -30,7 +30,7 @@ COMPONENTS = {"real": ["TradingEnv", "Transmitter", "Broker", "TrackRecord", "Re
               "harness": ["recording observers", "independent Fraction ledger", "reward model"], "stub": []}
 PROBE_FLOORS = {"step_without_trade": 100, "fees_positive": 300, "delay_positive": 97, "reward_clipped": 20,
                 "reward_negative_with_risk_aversion": 20, "interest_credited": 100, "compounding_checked": 16,
-                "own_costs_ruin_injected": 19, "futures_chain_world": 45, "feature_values_account_at_every_quote": 80}
+                "own_costs_ruin_injected": 19, "futures_chain_world": 45, "feature_values_account_at_every_quote": 80, "xy_rewards_checked": 45, "xy_reward_clip_binds": 150}
 
 PROFILE = {
     "n_min": 3, "n_max": 12, "n_long": 40, "p_long": 0.1, "c_min": 1, "c_max": 3, "p_bar": 1.0, "extras_max": 8,
@@ -60,7 +60,86 @@ def generate_chain(rng, i):
     return sc
 
 
+def generate_xy(rng, i):
+    """The tabular environment's reward: the log NLV ratio since the last pre-trade snapshot, divided by a scale
+    estimated from the price table (mean over assets of the standard deviation of log price changes up to
+    transformer_end), clipped to +/- reward_clipping, negative values multiplied by (1 + risk_aversion)."""
+    from tesim import xy
+    tb = xy.gen_tables(rng, {"n_min": 40, "n_max": 90, "freqs": ["D", "B"]})
+    for r, row in enumerate(tb["Y"]):
+        for j, v in enumerate(row):
+            if v != v:
+                row[j] = tb["Y"][r - 1][j] if r > 0 else 100.0
+    # a few large moves so that the clip binds
+    for _ in range(rng.randint(1, 4)):
+        r = rng.randrange(5, len(tb["Y"]))
+        f = rng.choice([0.8, 1.25, 0.9, 1.15])
+        for rr in range(r, len(tb["Y"])):
+            tb["Y"][rr][0] *= f
+    n = len(tb["dates"])
+    kw = {"window": rng.choice([1, 2]), "stride": None, "spread": rng.choice([0, 0.001]), "transformer": rng.choice([None, "z-score"]),
+          "clip": rng.choice([5.0, 3.0]), "steps_delay": rng.choice([0, 1]), "margin": 0.0, "calendar": "24/7", "latency": 0,
+          "reward_clipping": rng.choice([0.5, 1.5, 2.0, 4.0]), "risk_aversion": rng.choice([0.0, 0.0, 0.1, 0.5]),
+          "fee": rng.choice([0.0, 0.001])}
+    if rng.random() < 0.3:
+        kw["transformer_end"] = tb["dates"][rng.randint(n // 2, n - 1)]
+    ny = len(tb["ycols"])
+    acts = [[round(rng.uniform(-0.8, 1.0), 3) for _ in range(ny)] for _ in range(9)]
+    return {"kind": "xy", "tables": tb, "kwargs": kw, "fold": None, "actions": acts, "np_seed": rng.randrange(2 ** 31)}
+
+
+def execute_xy(scenario):
+    import math
+    from tesim import xy
+    violations, probes, violate, probe = epicheck.mk_violation_sink()
+    kw = scenario["kwargs"]
+    tb = scenario["tables"]
+    log = []
+    n_checked = 0
+    with core.sim_context():
+        try:
+            env, X0, Y0, rate0 = xy.make_env(scenario)
+        except Exception as e:
+            return {"violations": [], "digest": core.digest(["build", type(e).__name__]), "probes": {"build_refused": 1}, "faults": {},
+                    "stats": {"ops": 1}, "trace": "xy-refused", "nontrivial": False}
+        try:
+            recs = xy.run_episode(env, scenario["actions"], fold=None, np_seed=scenario.get("np_seed", 0))
+        except Exception as e:
+            return {"violations": [], "digest": core.digest(["reset", type(e).__name__]), "probes": {"reset_refused": 1}, "faults": {},
+                    "stats": {"ops": 1}, "trace": "xy-reset-refused", "nontrivial": False}
+    # the scale, from the given table only
+    end = kw.get("transformer_end") or (kw.get("end") or tb["dates"][-1])
+    rows = [row for d, row in zip(tb["dates"], tb["Y"]) if d <= end]
+    sds = []
+    for j in range(len(tb["ycols"])):
+        lr = [math.log(rows[k][j] / rows[k - 1][j]) for k in range(1, len(rows))]
+        m = sum(lr) / len(lr)
+        sds.append(math.sqrt(sum((x - m) ** 2 for x in lr) / (len(lr) - 1)))
+    scale = sum(sds) / len(sds)
+    spec = {"cls": "LogReturn", "scale": scale, "clip": kw["reward_clipping"], "risk_aversion": kw["risk_aversion"]}
+    for k, r in enumerate(recs):
+        log.append([k, r.get("exc"), core.canon(r.get("reward")), core.canon(r.get("nlv"))])
+        if r["kind"] != "step" or r.get("exc") is not None or r.get("last") is None or isinstance(r["nlv"], str):
+            continue
+        want = epicheck.reward_model(spec, r["nlv"], r["last"]["pre"])
+        if abs(r["reward"] - want) > 1e-9 * max(1.0, abs(want)):
+            violate("reward_definition", "tabular environment: step {} reward {} but log(NLV {} / pre-trade NLV {}) / scale {} clipped to +/-{} with risk aversion {} is {}".format(
+                k, r["reward"], r["nlv"], r["last"]["pre"], scale, kw["reward_clipping"], kw["risk_aversion"], want), op=k, cls="LogReturn", kind="xy")
+            break
+        n_checked += 1
+        raw = math.log(r["nlv"] / r["last"]["pre"]) / scale
+        if abs(raw) > kw["reward_clipping"]:
+            probe("xy_reward_clip_binds")
+        if raw < 0 and kw["risk_aversion"] > 0:
+            probe("xy_negative_reward_with_risk_aversion")
+    probe("xy_rewards_checked") if n_checked else None
+    return {"violations": violations, "digest": core.digest(log), "probes": probes, "faults": {}, "stats": {"ops": len(recs), "steps": len(recs)},
+            "trace": "xy|rc{}|ra{}|c{}|n{}".format(kw["reward_clipping"], kw["risk_aversion"], kw["clip"], n_checked), "nontrivial": n_checked >= 2}
+
+
 def generate(rng, i):
+    if i % 8 == 6:
+        return generate_xy(rng, i)
     if i % 8 == 7:
         sc = generate_chain(rng, i)
         if sc is not None:
@@ -89,6 +168,8 @@ def generate(rng, i):
 
 
 def execute(scenario):
+    if scenario.get("kind") == "xy":
+        return execute_xy(scenario)
     sim = epi.run_scenario(scenario)
     env_spec = scenario["envs"][0]
     d = Delivery(env_spec, gen_epi.auto_disc(env_spec))
@@ -347,14 +428,25 @@ def execute(scenario):
 
 
 def describe(scenario):
+    if scenario.get("kind") == "xy":
+        return {"kind": "xy", "kwargs": scenario["kwargs"], "rows": len(scenario["tables"]["dates"]), "actions": scenario["actions"]}
     return gen_epi.describe(scenario)
 
 
 def shrink_paths(scenario):
+    if scenario.get("kind") == "xy":
+        return [("actions",)]
     return [("script",), ("envs", 0, "events")]
 
 
-from tesim.props.c04 import simplify  # noqa: E402,F401
+from tesim.props.c04 import simplify as _simplify_epi  # noqa: E402
+
+
+def simplify(scenario):
+    if scenario.get("kind") == "xy":
+        return
+    for c in _simplify_epi(scenario):
+        yield c
 
 
 generate = gen_epi.with_backtest_driver(generate, 0.2)
